@@ -273,6 +273,15 @@ Proof.
   all: exists [LBR], (RBR :: COLON :: p); cbn [app]; rewrite <- app_assoc; reflexivity.
 Qed.
 
+(* a shared director: what it dials for a connection depends on that connection alone,
+   whatever it has dialled for before and will dial for afterwards *)
+Lemma dial_seq_independent cfg pre c post :
+  nth (length pre) (dial_seq cfg (pre ++ c :: post)) DError = dial_model cfg (fst c) (snd c).
+Proof.
+  unfold dial_seq. rewrite map_app. cbn [map].
+  rewrite app_nth2 by (rewrite map_length; lia). rewrite map_length, Nat.sub_diag. reflexivity.
+Qed.
+
 Lemma dial_unsupported cfg lport : dial_model cfg LOther lport = DUnsupported.
 Proof. reflexivity. Qed.
 
